@@ -7,7 +7,7 @@ from sx import core as S, env as E, npshim
 
 PROPERTY = "C20"
 REGIONS = ["construct-int-dtype", "construct-float-dtype", "construct-callable-default", "id-absent-default-used",
-           "indices", "to_list-1d", "to_list-2d", "from_list-bool", "from_list-int", "from_list-nested", "linalg", "non-string-id"]
+           "indices", "to_list-1d", "to_list-2d", "from_list-bool", "from_list-int", "from_list-nested", "linalg", "linalg-after-in-place-edit", "non-string-id"]
 BOUNDS = ("variable lists of length <=4 mixing str, int, unicode and tuple-string ids; dictionaries over (column ids + 2 foreign ids) with symbolic "
           "presence flags and symbolic values |v|<=2^20; variable boxes symbolic in [-32768,32767]; dtypes int64/int32/float64/float32; default None or "
           "callable; 0/1 array entries symbolic; lists: every sub-sequence of a <=4-element candidate sequence (presence flags decided per path); "
@@ -41,6 +41,8 @@ def instantiations(tier, seed):
         out.append({"part": "from_list", "ids": [str(i) for i in ids], "cls": "integer", "nested": False})
         out.append({"part": "from_list", "ids": [str(i) for i in ids][:3], "cls": ["boolean", "integer"][k % 2], "nested": True})
         out.append({"part": "linalg", "ids": ids, "rows": 1 + k % 2})
+        if k % 2 == 0:
+            out.append({"part": "linalg", "ids": ids[:2], "rows": 1 + (k // 2) % 2, "edit": True})
     # ids that differ only by their type (generated integer ids next to user string ids): "arbitrary ids incl. non-string"
     for k, ids in enumerate([[0, 1, "0", "1", "a"], ["x", 4, "4"], [2, "2", 10, "10"]]):
         out.append({"part": "from_list", "ids": ids, "cls": "boolean", "nested": False})
@@ -150,7 +152,16 @@ def run_inst(spec, run):
                     nr = spec["rows"]
                     los, his, vs = mkvars(ctx)
                     ent = [[ctx.int("m%d_%d" % (i, j), -100, 100) for j in range(n + 1)] for i in range(nr)]
-                    P = pnd.ge_polyhedron(npshim.obj_matrix(ent), variables=[puan.variable(0, bounds=(1, 1))] + vs)
+                    if spec.get("edit"):
+                        # the polyhedron is an ndarray: built with other content, queried, then overwritten in place; the answers must follow
+                        ent0 = [[ctx.int("n%d_%d" % (i, j), -100, 100) for j in range(n + 1)] for i in range(nr)]
+                        P = pnd.ge_polyhedron(npshim.obj_matrix(ent0), variables=[puan.variable(0, bounds=(1, 1))] + vs)
+                        P.A, P.b, P.to_linalg(), P.A_max, P.A_min
+                        for i in range(nr):
+                            for j in range(n + 1):
+                                P[i, j] = ent[i][j]
+                    else:
+                        P = pnd.ge_polyhedron(npshim.obj_matrix(ent), variables=[puan.variable(0, bounds=(1, 1))] + vs)
                     A, b = P.to_linalg()
                     d.update(ent=ent, A=P.A, b=P.b, A2=A, b2=b)
             except Exception as e:   # noqa
@@ -257,6 +268,8 @@ def run_inst(spec, run):
                 run.validate(ctx, conc, lambda m: {"res": [[S.model_int(m, v) for v in (r if spec["nested"] else [r])] for r in res.tolist()] if res.size else []})
             else:
                 run.region("linalg")
+                if spec.get("edit"):
+                    run.region("linalg-after-in-place-edit")
                 ent, A, b, A2, b2 = d["ent"], d["A"], d["b"], d["A2"], d["b2"]
                 nr = len(ent)
                 viol = []
